@@ -961,6 +961,19 @@ func RuleELoops(c *core.Ctx) {
 							okAll = false
 						}
 					}
+					// a package-level list, initialised once with constants
+					if g, ok := v.(*ssa.Global); ok {
+						strs, ok := globalStringList(p, g)
+						if !ok {
+							okAll = false
+						}
+						for _, s := range strs {
+							seenAny = true
+							if s == "" {
+								okAll = false
+							}
+						}
+					}
 				}
 			}
 			if okAll && seenAny {
@@ -972,4 +985,71 @@ func RuleELoops(c *core.Ctx) {
 	}
 	c.Floor(rule, 15)
 	c.Floor("E-nonempty", 5)
+}
+
+
+// globalStringList: the package-level variable g is assigned exactly once, in
+// its package's initialiser, a slice literal of string constants; returns
+// them. ok=false if g is written anywhere else or the literal has other
+// elements.
+func globalStringList(p *core.Prog, g *ssa.Global) ([]string, bool) {
+	var res []string
+	stores := 0
+	good := true
+	for _, fn := range p.SrcFuncs() {
+		if fn.Pkg != g.Pkg {
+			continue
+		}
+		core.EachInstr(fn, func(ins ssa.Instruction) {
+			st, ok := ins.(*ssa.Store)
+			if !ok || st.Addr != ssa.Value(g) {
+				return
+			}
+			stores++
+			if fn.Name() != "init" {
+				good = false
+				return
+			}
+			sl, ok := st.Val.(*ssa.Slice)
+			if !ok {
+				good = false
+				return
+			}
+			arr, ok := sl.X.(*ssa.Alloc)
+			if !ok || arr.Referrers() == nil {
+				good = false
+				return
+			}
+			for _, r := range *arr.Referrers() {
+				ia, ok := r.(*ssa.IndexAddr)
+				if !ok {
+					continue
+				}
+				for _, es := range core.StoresTo(ia) {
+					s, ok := core.ConstString(es.Val)
+					if !ok {
+						good = false
+					}
+					res = append(res, s)
+				}
+			}
+		})
+	}
+	// element stores through the global elsewhere (g[i] = x)
+	if g.Referrers() != nil {
+		for _, r := range *g.Referrers() {
+			if ld, ok := r.(*ssa.UnOp); ok && ld.Referrers() != nil {
+				for _, rr := range *ld.Referrers() {
+					if ia, ok := rr.(*ssa.IndexAddr); ok && ia.Referrers() != nil {
+						for _, r3 := range *ia.Referrers() {
+							if st, ok := r3.(*ssa.Store); ok && st.Addr == ssa.Value(ia) {
+								good = false
+							}
+						}
+					}
+				}
+			}
+		}
+	}
+	return res, good && stores == 1 && len(res) > 0
 }
